@@ -139,11 +139,14 @@ def run(rep, wd, tier, seed):
     for bit in range(2, 129):
         if str(bit) in bc:
             continue
-        bm = bytearray(16)
-        bm[0] |= 0x80
-        bm[(bit - 1) // 8] |= 1 << (7 - (bit - 1) % 8)
-        data = struct.pack('>I', 40) + b'1240' + bytes(bm) + b'0' * 60
-        traces.append(trace(len(traces), data, False, False, 'ascii', 'first bitmap uses unconfigured bit %d' % bit))
+        for bit1 in ((True, False) if bit > 64 else (True,)):
+            bm = bytearray(16)
+            if bit1:
+                bm[0] |= 0x80
+            bm[(bit - 1) // 8] |= 1 << (7 - (bit - 1) % 8)
+            data = struct.pack('>I', 40) + b'1240' + bytes(bm) + b'0' * 60
+            traces.append(trace(len(traces), data, False, False, 'ascii', 'first bitmap uses unconfigured bit %d%s' %
+                                (bit, '' if bit1 else ' (bit 1 off)')))
     # the configuration is changed at run time AFTER inspections have been made: element 7 configured, element 127 removed
     from cardutil import config as cfgmod
     saved = cfgmod.config['bit_config']
@@ -160,10 +163,29 @@ def run(rep, wd, tier, seed):
     finally:
         cfgmod.config['bit_config'] = saved
     consts2 = isoc.consts(changed, 'latin_1')
+    # the configured maximum record length changed at run time
+    extra_batches = []
+    savedmax = cfgmod.config.get('MAX_VBS_RECORD_LENGTH', 6000)
+    try:
+        for newmax in (9000, 1000):
+            cfgmod.config['MAX_VBS_RECORD_LENGTH'] = newmax
+            ts = []
+            for ln in (newmax - 1, newmax, newmax + 1, 6001 if newmax > 6000 else 1001, 5999 if newmax > 6000 else 999):
+                body = isoc.iso8583.dumps({'MTI': '1240', 'DE3': '123456'})
+                data = struct.pack('>I', ln) + body + b'\x00' * 40
+                ts.append(trace(len(ts), data, False, False, 'ascii', 'first length %d with the maximum changed to %d at run time' % (ln, newmax)))
+            extra_batches.append({'consts': None, 'traces': ts, 'maxlen': newmax})
+    finally:
+        cfgmod.config['MAX_VBS_RECORD_LENGTH'] = savedmax
     cfgp = write_cfg(os.path.join(wd, 'Trace_Inspect.cfg'),
                      'CONSTANTS P = 1012 T = 2 PAD = 64 MaxLen = %d\nSPECIFICATION TSpec\nPOSTCONDITION AllAccepted\n'
                      'CHECK_DEADLOCK FALSE\n' % maxlen)
-    batches = [{'consts': None, 'traces': p} for p in core.split(traces, 6)] + [{'consts': consts2, 'traces': traces2}]
+    batches = [{'consts': None, 'traces': p} for p in core.split(traces, 6)] + [{'consts': consts2, 'traces': traces2}] + extra_batches
+    cfgs = {}
+    for b in extra_batches:
+        cfgs[b['maxlen']] = write_cfg(os.path.join(wd, 'Trace_Inspect-%d.cfg' % b['maxlen']),
+                                      'CONSTANTS P = 1012 T = 2 PAD = 64 MaxLen = %d\nSPECIFICATION TSpec\nPOSTCONDITION AllAccepted\n'
+                                      'CHECK_DEADLOCK FALSE\n' % b['maxlen'])
     consts = isoc.consts(bc, 'latin_1')
 
     def describe(t, rj):
@@ -172,8 +194,9 @@ def run(rep, wd, tier, seed):
     from concurrent.futures import ThreadPoolExecutor
 
     def one(i):
-        return core.tlc_batch('Trace_Inspect', cfgp, wd, {'consts': batches[i]['consts'] or consts, 'traces': batches[i]['traces']}, 'insp-%d' % i)
-    with ThreadPoolExecutor(7) as ex:
+        return core.tlc_batch('Trace_Inspect', cfgs.get(batches[i].get('maxlen'), cfgp), wd,
+                              {'consts': batches[i]['consts'] or consts, 'traces': batches[i]['traces']}, 'insp-%d' % i)
+    with ThreadPoolExecutor(9) as ex:
         outs = list(ex.map(one, range(len(batches))))
     for b, (acc, rejects, res) in zip(batches, outs):
         rep.add_tlc('Trace_Inspect batch', res)
